@@ -1,5 +1,6 @@
 import Crusta.Model.Equiv
 import Crusta.Proofs.Deciders
+import Crusta.Proofs.EquivSound
 
 /-! # C19 — arguments merged by the equivalence reduction are indistinguishable (property theorems) -/
 
@@ -26,5 +27,39 @@ theorem sameComplete_equiv (af : AF) :
     (∀ a b c, sameCompleteB af a b = true → sameCompleteB af b c = true → sameCompleteB af a c = true) := by
   simp only [sameComplete_exact]
   exact ⟨fun _ _ _ => trivial, fun _ _ h S hS => (h S hS).symm, fun _ _ _ h1 h2 S hS => (h1 S hS).trans (h2 S hS)⟩
+
+/-- **C19, the reduction itself** (model `Crusta.Eq.computeClasses`, tied to the implementation by the
+`equiv` family): on every well-formed framework the classes only merge arguments that belong to
+exactly the same complete extensions -/
+theorem merged_arguments_indistinguishable (af : AF) (hwf : af.WF) :
+    ∀ c ∈ computeClasses af, ∀ a ∈ c.members, ∀ b ∈ c.members, ∀ S, Complete af S → S a = S b :=
+  classes_sound af hwf
+
+/-- the grounded class lies in every complete extension, the defeated class in none -/
+theorem grounded_and_defeated_classes (af : AF) (hwf : af.WF) :
+    ∀ c ∈ computeClasses af, (c.kind = .grounded → ∀ a ∈ c.members, ∀ S, Complete af S → S a = true) ∧
+      (c.kind = .defeated → ∀ a ∈ c.members, ∀ S, Complete af S → S a = false) :=
+  special_classes af hwf
+
+/-- the classes partition the arguments (total, no overlap) -/
+theorem classes_are_a_partition (af : AF) (hwf : af.WF) :
+    (∀ a, a < af.n → ∃ c ∈ computeClasses af, a ∈ c.members) ∧
+    (∀ c ∈ computeClasses af, ∀ a ∈ c.members, a < af.n) ∧
+    ((computeClasses af).flatMap (·.members)).Nodup :=
+  classes_partition af hwf
+
+/-- the two mappings are total and inverse at the level of classes: `init_to_reduced` sends every
+argument to the class that contains it -/
+theorem mappings_inverse (af : AF) (hwf : af.WF) :
+    ∀ a, a < af.n → ∃ c, (computeClasses af)[(initToReduced af.n (computeClasses af)).getD a 0]? = some c ∧
+      a ∈ c.members :=
+  maps_inverse af hwf
+
+/-- soundness of the propagation underlying the reduction -/
+theorem propagation_sound (af : AF) (hwf : af.WF) (args : List Nat) (hargs : ∀ a ∈ args, a < af.n) :
+    (∀ p d, propagate af (nAttacksTo af) args = some (p, d) →
+      ∀ S, Complete af S → (∀ a ∈ args, S a = true) → (∀ x ∈ p, S x = true) ∧ (∀ x ∈ d, S x = false)) ∧
+    (propagate af (nAttacksTo af) args = none → ¬ ∃ S, Complete af S ∧ ∀ a ∈ args, S a = true) :=
+  propagate_sound af hwf args hargs
 
 end Crusta.C19
